@@ -1,5 +1,6 @@
 from .expr import evaluate, parse_expr, split_equation, names_in, FUNCS  # noqa
 from .model import Model  # noqa
+from . import solvers  # noqa
 
 
 def selftest():
